@@ -1070,6 +1070,17 @@ def g_circuit(rng, nq, nops, pblock=0.0, nested=0.1, preparam=0.35,
     return cs
 
 
+def has_param_blocks(cs):
+    """the circuit spec contains a block operation with parameters"""
+    return any(o[2][0] == 'B' and spec_nparams(o[2]) > 0 for o in cs['ops'])
+
+
+def reparam_twin(rng, cs):
+    """the same circuit, re-parameterised after its blocks were formed"""
+    return dict(cs, reparam=list(cs.get('reparam', ())) + [
+        ('all', rng.randint(1, 900), rng.randint(0, 6000))])
+
+
 def g_edges(rng, n):
     import itertools as it
     allp = list(it.combinations(range(n), 2))
@@ -2103,13 +2114,22 @@ def oracle_foreach(ck, rng, n, tables):
     from bqskit.passes.control import ForEachBlockPass
     from bqskit.passes.control.foreach import default_collection_filter
     import bqskit.runtime.worker as W
+    pending = None
     for it in range(n):
         nq = rng.randint(2, 4)
         rad = g_radixes(rng, nq)
         heavy = it % 3 == 0
-        cs = g_circuit(rng, rad, rng.randint(2, 7), pblock=0.6, nested=0.0,
-                       preparam=0.9 if heavy else 0.3,
-                       parametric=1.0 if heavy else 0.5)
+        if pending is not None:
+            # the circuit of the previous case again, re-parameterised
+            rad, cs = pending
+            nq = len(rad)
+            pending = None
+        else:
+            cs = g_circuit(rng, rad, rng.randint(2, 7), pblock=0.6, nested=0.0,
+                           preparam=0.9 if heavy else 0.3,
+                           parametric=1.0 if heavy else 0.5)
+            if has_param_blocks(cs) and rng.random() < 0.4:
+                pending = (rad, reparam_twin(rng, cs))
         circuit = mk_circ(cs)
         data = PassData(circuit)
         pd = [a for a in g_pdata(rng, rad) if a[0] != 'error']
@@ -2253,16 +2273,43 @@ def oracle_foreach(ck, rng, n, tables):
                           for i1 in range(len(loc)) for i2 in range(i1 + 1, len(loc))
                           if tuple(sorted((loc[i1], loc[i2]))) in conn}
                 got_e = {tuple(sorted(e)) for e in bd.model.coupling_graph}
+                want_r = [before.radixes[q] for q in loc]
                 if (got_e != want_e or bd.model.num_qudits != len(loc)
-                        or list(bd.model.radixes) != [before.radixes[q] for q in loc]
+                        or list(bd.model.radixes) != want_r
                         or dict(bd['subnumbering']) != {q: j for j, q in enumerate(loc)}
                         or tuple(bd['point']) != (cyc, loc[0])):
                     badm = (f'block {i} at location {loc}: sub-model edges '
-                            f'{sorted(got_e)}, expected {sorted(want_e)}; '
+                            f'{sorted(got_e)}, expected {sorted(want_e)}; radixes '
+                            f'{list(bd.model.radixes)}, expected {want_r}; '
                             f'subnumbering {dict(bd["subnumbering"])}, point '
                             f'{tuple(bd["point"])}')
             if badm:
                 ck.violation('foreach-submodel', badm, rep)
+                continue
+            # (1c) sub-data: seed of the parent, the error-bound switch, the
+            # documented pass-down keys (general: copied; block-specific: the
+            # entry of block i of a dict value)
+            bads = None
+            for i, (cyc, op) in enumerate(sel):
+                bd = data['ForEachBlockPass_data'][-1][i]
+                if bd.seed != data.seed:
+                    bads = f'block {i}: seed {bd.seed}, the pass data has {data.seed}'
+                if bool(bd['calculate_error_bound']) != calc:
+                    bads = f'block {i}: calculate_error_bound {bd["calculate_error_bound"]}'
+                for a in pd:
+                    if a[0] != 'put' or not a[1].startswith('ForEachBlockPass_'):
+                        continue
+                    if a[1].startswith('ForEachBlockPass_pass_down_'):
+                        if a[1] not in bd or bd[a[1]] != mk_val(a[2]):
+                            bads = f'block {i}: pass-down key {a[1]} not handed down'
+                    elif isinstance(a[2], dict):
+                        v = mk_val(a[2])
+                        if (i in v) != (a[1] in bd) or (i in v and bd[a[1]] != v[i]):
+                            bads = (f'block {i}: block-specific pass-down key '
+                                    f'{a[1]} = {v}: block data has '
+                                    f'{bd[a[1]] if a[1] in bd else "nothing"}')
+            if bads:
+                ck.violation('foreach-subdata', bads, rep)
                 continue
         # (2) write-back
         cells1 = cell_ops(circuit)
@@ -2309,7 +2356,8 @@ def oracle_foreach(ck, rng, n, tables):
         ck.bump('oracle_foreach_accepted', str(min(accepted, 4)))
         if bad:
             ck.violation('foreach-writeback', bad, rep)
-            continue
+            if set(cells1) != set(cells0):
+                continue
         # (2b) the WHOLE circuit: its unitary (own embedding of the gate
         # matrices, and bqskit's simulation) is that of the initial circuit with
         # exactly the accepted results substituted; identity bodies: unchanged
@@ -2324,17 +2372,17 @@ def oracle_foreach(ck, rng, n, tables):
                 f'the circuit after the pass is at distance {max(d_own, d_bq)} '
                 'from the initial circuit with the accepted results '
                 f'substituted ({accepted} accepted)', rep)
-            continue
         truth_own = hs_distance(U0_own, U1_own)
         if bkind == 'identity' and truth_own > 1e-6:
             ck.violation(
                 'foreach-identity-body-changes-circuit',
                 f'a body that does nothing moved the circuit by {truth_own}', rep)
-            continue
         # (3) error bound
         if calc:
             E1 = float(data.error)
             truth = max(U1.get_distance_from(U0), truth_own)
+            ck.bump('oracle_foreach_distance',
+                    '0' if truth < 1e-7 else '<0.1' if truth < 0.1 else '>=0.1')
             S = exp_S
             if E1 < truth - (E0 * S + NOISE):
                 ck.violation(
@@ -2350,6 +2398,25 @@ def oracle_foreach(ck, rng, n, tables):
                     f'measured block distances of the REPLACED blocks (E={E0}, '
                     f'S={S}); not smaller than the measured distance {truth}',
                     rep, found_input=False)
+        # (4) ClearAllBlockData: "clear all block data and passed down data",
+        # nothing else
+        from bqskit.passes.control.foreach import ClearAllBlockData
+        snap0 = snapshot(circuit, data)
+        keys0 = {k: se_text(se_val(data._data[k])) for k in data._data
+                 if not k.startswith('ForEachBlockPass_')}
+        outc = safe_run(ClearAllBlockData(), circuit, data)
+        snap1 = snapshot(circuit, data)
+        left = [k for k in data._data
+                if k.startswith('ForEachBlockPass_data')
+                or k.startswith('ForEachBlockPass_pass_down_')]
+        keys1 = {k: se_text(se_val(data._data[k])) for k in data._data
+                 if not k.startswith('ForEachBlockPass_')}
+        other = [k for k in snap0 if k != '_data' and snap_diff({k: snap0[k]}, {k: snap1[k]})]
+        if outc != 'ok' or left or keys0 != keys1 or other:
+            ck.violation(
+                'clearall',
+                f'ClearAllBlockData ({outc}) left the keys {left}; other keys '
+                f'changed: {keys0 != keys1}; attributes changed: {other}', rep)
 
 
 # =====================================================================
@@ -2557,7 +2624,7 @@ def run(ck):
     n_control = 2500 if thorough else 220
     n_foreach = 1500 if thorough else 130
     n_malformed = 200 if thorough else 30
-    n_reparam = 600 if thorough else 60
+    n_reparam = 600 if thorough else 90
     dev = float(os.environ.get('C11_DEV_SCALE', '1'))     # development only
     n_control, n_foreach, n_malformed = (int(n_control * dev), int(n_foreach * dev),
                                          int(n_malformed * dev))
@@ -2574,6 +2641,14 @@ def run(ck):
         cases.append(malformed_case(rng))
     for _ in range(n_reparam):
         cases.append(gen_reparam_case(rng))
+    # every foreach / malformed case whose circuit has parameterised blocks is
+    # ALSO run in a re-parameterised variant (same tree, leaves, PassData)
+    twins = []
+    for case in cases:
+        if case['kind'] in ('foreach', 'malformed') and has_param_blocks(case['circ']):
+            twins.append(dict(case, circ=reparam_twin(rng, case['circ']),
+                              kind=case['kind'] + '-twin'))
+    cases += twins
 
     batch = []
     for case in cases:
@@ -2610,7 +2685,7 @@ def run(ck):
     oracle_control(ck, rng, 600 if thorough else 120)
     oracle_restore(ck, rng, 240 if thorough else 48)
     oracle_decisions(ck, rng, 300 if thorough else 60)
-    oracle_foreach(ck, rng, 600 if thorough else 100, tables)
+    oracle_foreach(ck, rng, 700 if thorough else 150, tables)
 
     for c_, d_ in batch_replace_cases(ck, rng, 2000 if thorough else 150):
         disagreements.append((dict(c_, tree=('leaf', 0)), d_))
@@ -2634,18 +2709,28 @@ def run(ck):
     ck.coverage['rule'] = (
         'each case = one generated pass tree (depth <= 4, all nine constructs, '
         'real And/Or/Not/Width/GateCount/Change and scripted predicates) run on '
-        'one generated circuit (1-5 qudits, circuit-gate blocks at sorted and '
-        'unsorted locations, blocks alone in a cycle via insert, nested blocks) '
+        'one generated circuit (1-5 qudits, a quarter with qutrits; circuit-gate '
+        'blocks at sorted and unsorted locations, blocks alone in a cycle via '
+        'insert, nested blocks; a third re-parameterised after the blocks were '
+        'formed - set_params / set_param of the outer circuit, block operations '
+        'with their own parameter vector, one CircuitGate object used with '
+        'several vectors - so that operation parameters differ from the ones '
+        'frozen in the gate) '
         'with one generated PassData (model with possibly uncoupled qudits, '
         'placement, mappings, seed, error, pass-down keys) and one script, '
         'through the real control passes and the Lean interpreter; compared: '
         'outcome, executed leaves with the state each saw, final circuit, all '
         'PassData fields (block data recursively), script consumption. '
-        'Further case families: malformed (invalid placement, unknown filter, '
+        'Further case families: re-parameterised (ForEach alone / twice around '
+        'a parameter-tuning leaf / nested / under DoThenDecide and ParallelDo, '
+        'bodies that do nothing, only read, perturb parameters, replace the '
+        'circuit), malformed (invalid placement, unknown filter, '
         'empty circuit, raising body), direct batch_replace calls (same / other '
         'locations / malformed points), real-Compiler runs, and the direct '
         'oracles (reference interpreter, restore snapshots, decisions, '
-        'foreach write-back / sub-model / error bound). distinct = distinct '
+        'foreach body input / once per block / sub-model / sub-data / write-back '
+        '/ whole-circuit unitary / identity body / error bound / ClearAllBlockData). '
+        'distinct = distinct '
         '(family, tree, circuit, script or arguments); non-trivial = at least '
         'one leaf pass executed (control families) / every case (others)')
     ck.assumptions += [
